@@ -71,6 +71,8 @@ def main():
         def verdict(e):
             return ", ".join("%s:%s" % (c["check"], "caught" if c["exit"] == 1 else ("harness-error" if c["exit"] == 3 else "missed")) for c in e["checks"])
         rows.append((name, prop, change, verdict(first) if first else "-", verdict(last) if last and last is not first else ""))
+    print("| seeded change | property | what was changed | first evaluation | after strengthening |")
+    print("|---|---|---|---|---|")
     for r in rows:
         print("| %s | %s | %s | %s | %s |" % r)
 
